@@ -122,6 +122,32 @@ class OptMonitor:
         hydrogens.HydrogenRoutines.cleanup = cleanup
         self._undo.append(lambda: setattr(hydrogens.HydrogenRoutines, "cleanup", orig_cleanup))
 
+        def wrap_bio(mname, store):
+            orig = getattr(biomolecule.Biomolecule, mname)
+
+            def wrapper(self_, *a, **k):
+                from pdb2pqr import aa, na
+
+                before = [(r, names(r), list(r.reference.map.keys()), bool(getattr(r, "ss_bonded", 0)) and isinstance(r, aa.CYS)) for r in self_.residues if isinstance(r, (aa.Amino, na.Nucleic)) and getattr(r, "reference", None) is not None]
+                missing_total = self_.num_missing_heavy if mname == "repair_heavy" else None
+                raised = None
+                try:
+                    return orig(self_, *a, **k)
+                except Exception as e:  # noqa: BLE001
+                    raised = type(e).__name__
+                    raise
+                finally:
+                    for r, b, refn, ssb in before:
+                        store.append({"res": r, "before": b, "ref": refn, "after": names(r), "ss": ssb, "raised": raised, "missing_total": missing_total, "hlist": a[0] if a else k.get("hlist")})
+
+            setattr(biomolecule.Biomolecule, mname, wrapper)
+            mon._undo.append(lambda: setattr(biomolecule.Biomolecule, mname, orig))
+
+        self.repairs = []
+        self.addhs = []
+        wrap_bio("repair_heavy", self.repairs)
+        wrap_bio("add_hydrogens", self.addhs)
+
         orig_remove = residue.Residue.remove_atom
 
         def remove_atom(self_, atomname):
@@ -262,6 +288,43 @@ def trace_tie(ctx: Ctx, drv: Driver, m: OptMonitor):
             recs.append({"cls": "cleanup", "method": "ASH", "before": c["before"], "after": c["after"], "b": None})
         elif c["before"] != c["after"]:
             ctx.disagree("cleanup changes a residue that is neither GLH nor ASH", {"residue": c["name"]}, c["before"], c["after"])
+    # repair_heavy / add_hydrogens, residue by residue
+    rq, rr = [], []
+    for c in m.repairs:
+        if c["raised"] or not c["missing_total"]:
+            # nothing missing anywhere: repair_heavy returns at once and deletes nothing
+            if not c["raised"] and c["before"] != c["after"]:
+                ctx.disagree("repair_heavy with nothing missing changes a residue", {}, c["before"], c["after"])
+            continue
+        rq.append(f"atoms.repair\t{encn(c['ref'])}\t{encn(c['before'])}")
+        rr.append(("repair", c))
+    for c in m.addhs:
+        if c["raised"]:
+            continue
+        if c["hlist"] is not None:
+            continue
+        rq.append(f"atoms.addh\t{encn(c['ref'])}\t{encn(c['before'])}\t{b01(c['ss'])}")
+        rr.append(("addh", c))
+    for (kind, c), a in zip(rr, drv.ask(rq)):
+        ctx.evaluations += 1
+        ctx.count("residue-stage-replays", kind)
+        if kind == "repair":
+            res_s, rep_s = a.split("|")
+            got, rep = decn(res_s), decn(rep_s)
+            if sorted(got) != sorted(c["after"]):
+                ctx.disagree("repair_heavy (names, as a multiset)", {"before": c["before"], "reference": c["ref"]}, got, c["after"])
+            reported = " ".join(m.warnings)
+            for n in rep:
+                if f"Extra atom {n} in" not in reported:
+                    ctx.disagree("repair_heavy deletes without reporting", {"before": c["before"]}, f"report for {n}", "none logged")
+        else:
+            got = decn(a)
+            if got != c["after"]:
+                lost = [n for n in got if n not in c["after"]]
+                if lost and all(n.startswith("H") for n in lost) and not [n for n in c["after"] if n not in got]:
+                    ctx.count("add_hydrogens-could-not-place", len(lost))  # 'Couldn't rebuild': ok(n) = false; the final oracle decides
+                else:
+                    ctx.disagree("add_hydrogens (names)", {"before": c["before"], "reference": c["ref"], "ss": c["ss"]}, got, c["after"])
     ans = drv.ask(reqs)
     for r, a in zip(recs, ans):
         ctx.evaluations += 1
@@ -385,6 +448,26 @@ def oracle(ctx: Ctx, m: OptMonitor, text, opts, run):
     return out
 
 
+def with_insertion_code(rng, text):
+    """renumber one residue as <previous number> + insertion code A (52, 52A)"""
+    lines = text.splitlines()
+    groups = []
+    for i, l in enumerate(lines):
+        if l.startswith("ATOM"):
+            key = l[21:27]
+            if not groups or groups[-1][0] != key:
+                groups.append((key, []))
+            groups[-1][1].append(i)
+    cands = [k for k in range(1, len(groups)) if groups[k][0][0] == groups[k - 1][0][0] and groups[k - 1][0][5] == " "]
+    if not cands:
+        return text, False
+    k = rng.choice(cands)
+    prev = groups[k - 1][0]
+    for i in groups[k][1]:
+        lines[i] = lines[i][:22] + prev[1:5] + "A" + lines[i][27:]
+    return "\n".join(lines) + "\n", True
+
+
 def gen_case(rng, force=None):
     if rng.random() < 0.5:
         text, opts, feats = c04.gen_case(rng, force)
@@ -410,6 +493,10 @@ def gen_case(rng, force=None):
         feats["kind"] += "+waters"
     if rng.random() < 0.1:
         opts.append("--drop-water")
+    if rng.random() < 0.15 and "hydrogenated" not in feats["kind"] and not feats["kind"].startswith("ss"):
+        text, done = with_insertion_code(rng, text)
+        if done:
+            feats["kind"] += "+icode"
     return text, opts, feats
 
 
